@@ -48,6 +48,12 @@ impl IndepView {
 
 /// The independent decoder must recover exactly the model from the files of `dir`.
 pub fn verify_indep_container(dir: &Path, main_name: &str, model: &ContainerModel, strict_container_size: bool) -> Result<u64, Failure> {
+    verify_indep_container_opts(dir, main_name, model, strict_container_size, true)
+}
+
+/// `check_locations`: the creator's own output records an empty location exactly for the packs
+/// inside the entry point file; a `concat` output legitimately keeps the original locations.
+pub fn verify_indep_container_opts(dir: &Path, main_name: &str, model: &ContainerModel, strict_container_size: bool, check_locations: bool) -> Result<u64, Failure> {
     let view = decode_dir(dir, strict_container_size)?;
     let mut evals = 0u64;
     let Some(main) = view.files.iter().position(|f| f.0 == main_name) else {
@@ -75,7 +81,8 @@ pub fn verify_indep_container(dir: &Path, main_name: &str, model: &ContainerMode
         ensure!(copied[1..33] == p.check_hash, "indep-copied-check", "pack {}: check info copied in the manifest differs from the pack's own", pi.pack_id);
         // location: empty iff the pack is inside the entry point file
         let loc = String::from_utf8_lossy(&pi.location).to_string();
-        if fi == main {
+        if !check_locations {
+        } else if fi == main {
             ensure!(loc.is_empty(), "indep-location", "pack {} is inside the entry point file but has location {loc:?}", pi.pack_id);
         } else {
             ensure!(&loc == fname, "indep-location", "pack {} lives in {fname} but its recorded location is {loc:?}", pi.pack_id);
